@@ -13,16 +13,17 @@ import (
 // getter, never the field — that half is what the per-property plumbing rules check). A getter
 // that returns another field, a constant, or a non-positive block parameter silently switches a
 // guarantee off for every caller at once while all call sites still look right:
-//   GetSync / GetNoSync           durability of acknowledged writes          (C04)
-//   GetStrict (both)              whether damage is reported or skipped      (C08, C12, C13)
-//   GetReadOnly, GetErrorIf*      read-only means read-only, open contracts  (C18)
-//   GetNoWriteMerge (both)        the writer merge protocol                  (C10)
-//   GetDisableLargeBatchTransaction  the large-batch-as-transaction path     (C11)
-//   GetBlockRestartInterval, GetBlockSize, GetFilterBaseLg  > 0: the block writer divides by the
-//                                 restart interval, the filter writer shifts by baseLg (C13, C16)
-//   GetFilter, GetAltFilters      the filter policy tables are written/read with (C16)
-//   GetComparer                   never nil, the user's comparer when one is set (C15)
-//   GetDisableBlockCache, GetDontFillCache, GetBlockCacheEvictRemoved         (C17)
+//
+//	GetSync / GetNoSync           durability of acknowledged writes          (C04)
+//	GetStrict (both)              whether damage is reported or skipped      (C08, C12, C13)
+//	GetReadOnly, GetErrorIf*      read-only means read-only, open contracts  (C18)
+//	GetNoWriteMerge (both)        the writer merge protocol                  (C10)
+//	GetDisableLargeBatchTransaction  the large-batch-as-transaction path     (C11)
+//	GetBlockRestartInterval, GetBlockSize, GetFilterBaseLg  > 0: the block writer divides by the
+//	                              restart interval, the filter writer shifts by baseLg (C13, C16)
+//	GetFilter, GetAltFilters      the filter policy tables are written/read with (C16)
+//	GetComparer                   never nil, the user's comparer when one is set (C15)
+//	GetDisableBlockCache, GetDontFillCache, GetBlockCacheEvictRemoved         (C17)
 //
 // The rule is decided on the SSA form of each getter: the shape of every returned value, and with
 // the guard engine the condition under which a constant (default) or the raw field is returned.
